@@ -19,8 +19,16 @@ pub open spec fn node_index(d: nat, o: int) -> int { o * p2(d + 1) + p2(d) - 1 }
 pub open spec fn leaf_aligned(l: int, a: nat, upto: int) -> bool { a <= 61 && l % p2(a + 1) == 0 && upto <= l + p2(a + 1) }
 
 pub uninterp spec fn spec_parent(i: u64) -> u64;
+/// depth of a node = number of trailing one bits of its index
+pub uninterp spec fn spec_depth(i: u64) -> u64;
+#[verifier::external_body]
+pub fn depth(i: u64) -> (r: u64)
+    ensures r == spec_depth(i), r <= 64
+{ unimplemented!() }
+/// flat_tree::parent shifts by depth + 1 and depth + 2: it overflows (panics with overflow checks) for depth >= 62
 #[verifier::external_body]
 pub fn parent(i: u64) -> (r: u64)
+    requires spec_depth(i) < 62
     ensures r == spec_parent(i)
 { unimplemented!() }
 
